@@ -68,3 +68,6 @@ Definition name_at {A} (l : list A) (i : Z) : res A :=
 
 (* truth value of an Optional[str]: None and the empty string are false *)
 Definition name_truthy (o : option (list Z)) : bool := match o with Some (_ :: _) => true | _ => false end.
+
+(* reading a variable that is only bound by a loop body: NameError when the loop never ran *)
+Definition bound_z (v : option Z) : res Z := match v with Some x => OK x | None => Err NameError end.
